@@ -235,11 +235,19 @@ func (s *hopSession) act(cls, what string) error {
 		s.conn.Conn().Close()
 		return &smtp.SMTPError{Code: 421, EnhancedCode: smtp.EnhancedCode{4, 4, 2}, Message: "dropping"}
 	}
+	if cls == "slow" {
+		// a positive reply that comes later than the client is willing to wait (SlowReply against its command time-out)
+		time.Sleep(SlowReply)
+		return nil
+	}
 	if e := hopErr(cls, what); e != nil {
 		return e
 	}
 	return nil
 }
+
+// SlowReply is the delay of the replies scripted as "slow".
+const SlowReply = 250 * time.Millisecond
 
 func (s *hopSession) Mail(from string, opts *smtp.MailOptions) error {
 	s.txDone()
